@@ -422,8 +422,8 @@ def run_AB(ck, hbin, script):
     return impl, rc, err, model, diff, drift, p2fail
 
 
-def judge_AB(ck, hbin, script, tag):
-    impl, rc, err, model, diff, drift, p2fail = run_AB(ck, hbin, script)
+def judge_AB(ck, hbin, script, tag, pre=None):
+    impl, rc, err, model, diff, drift, p2fail = pre if pre is not None else run_AB(ck, hbin, script)
     mixed = script_is_mixed(script)
     ck.traces_validated += 1
     ck.drift_events += drift
@@ -806,20 +806,15 @@ def run(ck):
             if not judge_AB(ck, hbin, script, "corpus"):
                 bad += 1
     nA, nM, nB = (150, 60, 25) if ck.tier == "quick" else (1500, 500, 250)
-    for i in range(nA):
+    work = [(gen_A(ck.rng.fork("A%d" % i), False), "A-homogeneous") for i in range(nA)]
+    work += [(gen_A(ck.rng.fork("M%d" % i), True), "A-mixed") for i in range(nM)]
+    work += [(gen_B(ck.rng.fork("B%d" % i), 60), "B-paths") for i in range(nB)]
+    with concurrent.futures.ThreadPoolExecutor(max_workers=min(12, (os.cpu_count() or 4))) as ex:
+        pres = list(ex.map(lambda w: run_AB(ck, hbin, w[0]), work))
+    for (script, tag), pre in zip(work, pres):
         if bad >= 3:
             break
-        if not judge_AB(ck, hbin, gen_A(ck.rng.fork("A%d" % i), False), "A-homogeneous"):
-            bad += 1
-    for i in range(nM):
-        if bad >= 3:
-            break
-        if not judge_AB(ck, hbin, gen_A(ck.rng.fork("M%d" % i), True), "A-mixed"):
-            bad += 1
-    for i in range(nB):
-        if bad >= 3:
-            break
-        if not judge_AB(ck, hbin, gen_B(ck.rng.fork("B%d" % i), 60), "B-paths"):
+        if not judge_AB(ck, hbin, script, tag, pre):
             bad += 1
     ck.log("parts A/B done (%d scripts)" % ck.traces_validated)
     jobs = make_jobs(ck, ck.rng.fork("runs"))
